@@ -18,7 +18,9 @@ PANIC_CALLS = [
     (re.compile(r"core::str::traits::<impl core::ops::index::Index"), "slice-index"),
     (re.compile(r"^core::slice::<impl \[T\]>::(copy_from_slice|clone_from_slice|split_at|split_at_mut|copy_within|swap|rotate_left|rotate_right|chunks|chunks_exact|windows|fill_with_never)$"), "slice-op"),
     (re.compile(r"^alloc::vec::Vec::<T, A>::(remove|insert|swap_remove|split_off|drain|truncate_never)$"), "vec-op"),
-    (re.compile(r"^core::num::<impl (i|u)(8|16|32|64|128|size)>::(abs|pow|next_power_of_two|div_euclid|rem_euclid|isqrt|ilog2|ilog10|ilog)$"), "arith-call"),
+    (re.compile(r"^core::num::<impl (i|u)(8|16|32|64|128|size)>::(wrapping_div|wrapping_rem|wrapping_div_euclid|wrapping_rem_euclid|"
+                r"saturating_div|overflowing_div|overflowing_rem|div_euclid|rem_euclid|div_ceil|div_floor|next_multiple_of|ilog2|ilog10|ilog|isqrt)$"), "div-call"),
+    (re.compile(r"^core::num::<impl (i|u)(8|16|32|64|128|size)>::(abs|pow|next_power_of_two)$"), "arith-call"),
     (re.compile(r"^<(i|u)(8|16|32|64|128|size) as core::ops::arith::(Add|Sub|Mul|Neg|Div|Rem|AddAssign|SubAssign|MulAssign|DivAssign)(<.*>)?>::\w+$"), "arith-call"),
     (re.compile(r"^<(i|u)(8|16|32|64|128|size) as core::ops::bit::(Shl|Shr)(<.*>)?>::\w+$"), "arith-call"),
     (re.compile(r"^<(i|u)(8|16|32|64|128|size) as core::iter::traits::accum::(Sum|Product)"), "arith-call"),
@@ -84,6 +86,10 @@ def check_zone(bodies, confirmed=None, param_ranges=None, only_kinds=None, call_
                 r = _slice_call(b, t, iv, st)
                 if r:
                     ok, why = True, r
+            if not ok and k == "div-call" and st is not None:
+                r = _div_call(b, t, iv, st)
+                if r:
+                    ok, why = True, r
             if not ok and k == "arith-call" and st is not None:
                 r = _arith_call(b, t, iv, st)
                 if r:
@@ -147,6 +153,21 @@ def _slice_call(b, t, iv, st):
         lt, lr = iv.slice_len(st, t.args[0], atys[0] if atys else None)
         if iv.le_len(st, t.args[1], lt, lr):
             return "mid <= len on this path"
+    return None
+
+
+def _div_call(b, t, iv, st):
+    """std division-like helpers panic on a zero divisor (ilog*/isqrt on non-positive / negative input)"""
+    name = t.callee.split("::")[-1]
+    args = [iv.rng(st, a) for a in t.args]
+    if name in ("ilog2", "ilog10") and args and args[0] is not None and args[0][0] >= 1:
+        return "argument is positive"
+    if name == "isqrt" and args and args[0] is not None and args[0][0] >= 0:
+        return "argument is non-negative"
+    if name == "ilog" and len(args) == 2 and args[0] is not None and args[1] is not None and args[0][0] >= 1 and args[1][0] >= 2:
+        return "argument positive and base >= 2"
+    if len(args) == 2 and args[1] is not None and (args[1][0] > 0 or args[1][1] < 0) and name not in ("ilog", "ilog2", "ilog10", "isqrt"):
+        return f"divisor in [{args[1][0]}, {args[1][1]}] excludes 0"
     return None
 
 
